@@ -21,6 +21,8 @@ func c02(c *Ctx) {
 	p := c.P
 	call := func(n string) IM { return p.PlainCalls("litefs.(*DB)." + n) }
 
+	c.journalInvalidation("invalidate")
+
 	// ---- dirty tracking ----
 	wd := "litefs.(*DB).WriteDatabaseAt"
 	wpage := call("writeDatabasePage")
